@@ -91,6 +91,14 @@ def cases(tier, rng):
         for cuts in ("", "chunks=64", "chunks=%d" % len(base), "chunks=%d" % (len(base) + 3), "chunks=1,63,%d,2" % (len(base) - 64), "chunks=" + ",".join(["7"] * 30)):
             out.append("v%d sock %s / attach a %s raw=%s %s / recv / recv / recv" % (k, t, pt, W.tok(whole), cuts))
             k += 1
+    # REQ reads its connection only after a request has gone out: what arrived with / right after the end of the
+    # handshake must still be there, for every segmentation
+    base = W.GREETING + W.ready(b"REP")
+    whole = base + W.msg([b"", b"first"])
+    for cuts in ("", "chunks=64", "chunks=%d" % len(base), "chunks=%d" % (len(base) + 3), "chunks=1,63,%d,2" % (len(base) - 64),
+                 "chunks=" + ",".join(["7"] * 30), "chunks=%d" % (len(whole) - 1)):
+        out.append("v%d sock REQ / attach a REP raw=%s %s / send 71 / recv" % (k, W.tok(whole), cuts))
+        k += 1
     # truncated streams (every prefix of two streams), whole and cut once
     for si, s in enumerate(streams(rng, "quick")[2:4]):
         for n in range(0, len(s)):
@@ -146,6 +154,11 @@ def judge(line, impl_obs, orc, _cache={}):
         return "no observation"
     if impl_obs.startswith(("panic", "abort", "hang")) or "PANICS" in impl_obs:
         return "implementation " + impl_obs[:60]
+    if sp[1] == "sock" and sp[2] == "REQ":
+        want = "att:a=ok:auto s=ok r=ok:6669727374"
+        if impl_obs != want:
+            return "data arriving with the end of the handshake is not delivered to REQ for some segmentation: %s (expected %s)" % (impl_obs[:160], want)
+        return None
     if sp[1] == "sock":
         w = HANDOVER[sp[2]]
         want = "att:a=ok:auto %s %s r=pending" % (w, w)
